@@ -3,8 +3,9 @@
 
   The theorems are about `Eval.evaluate` (the model of evaluate.go:evaluate) and hold for every
   regexp oracle, option record and datum; the outcomes of the operands are arbitrary.  The tie of
-  the three connective branches to the source is `Ties/EvaluateShape.lean` (token pins of the
-  UnaryOpNot / BinaryOpAnd / BinaryOpOr case bodies) and the `conn` correspondence fragment.
+  the connectives to the source is `Ties/EvaluateSem.lean` (the regenerated GoLite term of `evaluate`
+  interpreted on every combination of operand outcomes: results equal to the tables below, calls
+  exactly `evaluate(left)` [`, evaluate(right)`]) and the `conn` correspondence fragment.
 -/
 import Bexpr.Eval.Impl
 
